@@ -191,6 +191,8 @@ type C16Session struct {
 	Resps    []string `json:"resps"`
 	WrongID  int      `json:"wrong_id_at"` // index of the exchange answered under a different id (-1: none)
 	Delta    int32    `json:"wrong_id_delta"`
+	// IDStep: the client moves to a new request id before every command (as most RCON clients do)
+	IDStep int32 `json:"id_step,omitempty"`
 }
 
 type c16ServerLog struct {
@@ -290,6 +292,9 @@ func c16CheckSession(c C16Session) *pbt.Violation {
 		rc.SetDeadline(time.Now().Add(20 * time.Second))
 	}
 	for i, cmd := range c.Cmds {
+		if rc, ok := client.(*mcnet.RCONConn); ok {
+			rc.ReqID += c.IDStep
+		}
 		if err := client.Cmd(cmd); err != nil {
 			finish()
 			return pbt.V("c16.cmd.error", "commands reach the server", "Cmd #%d: %v", i, err)
@@ -366,6 +371,7 @@ var c16Session = pbt.Register(pbt.Prop[C16Session]{
 			c.Cmds = append(c.Cmds, genText(t, "cmd"))
 			c.Resps = append(c.Resps, genText(t, "resp"))
 		}
+		c.IDStep = rapid.SampledFrom([]int32{0, 0, 1, -1, 1000, 1 << 30}).Draw(t, "idstep")
 		if len(c.Cmds) > 0 && rapid.IntRange(0, 3).Draw(t, "wrongid") == 2 {
 			c.WrongID = rapid.IntRange(0, len(c.Cmds)-1).Draw(t, "wrongat")
 			c.Delta = rapid.SampledFrom([]int32{1, -1, 2, 256, -2147483648, 65536, 7}).Draw(t, "delta")
@@ -382,6 +388,9 @@ var c16Session = pbt.Register(pbt.Prop[C16Session]{
 		}
 		if c.WrongID >= 0 {
 			labels = append(labels, "response_under_wrong_id")
+		}
+		if c.IDStep != 0 && len(c.Cmds) > 0 {
+			labels = append(labels, "new_request_id_per_command")
 		}
 		return c.ServerPw != c.ClientPw || len(c.Cmds) > 0, labels, nil
 	},
